@@ -418,6 +418,9 @@ pub const SEPARATOR_KINDS: &[&str] = &[
     "nested-comment",
     "block-comment-with-dashes",
     "multiline-comment",
+    "line-comment-attached",
+    "block-comment-stars",
+    "banner-comment",
     "empty",
 ];
 
@@ -442,6 +445,10 @@ pub struct Layout {
     pub toks: Vec<PlacedTok>,
     /// separator kinds used, for the coverage histogram
     pub kinds_used: Vec<&'static str>,
+    /// separator kind placed before item i (index 0: the optional leading separator or "")
+    pub boundary_kinds: Vec<&'static str>,
+    /// index of the first token of item i
+    pub item_tok_start: Vec<usize>,
     /// did any comment sit directly between two word-like items without whitespace?
     pub has_attached_comment_between_words: bool,
 }
@@ -483,6 +490,15 @@ fn sep_text(kind: &str, rng: &mut Rng) -> String {
         "nested-comment" => format!("/* a /* {} */ c */", cw),
         "block-comment-with-dashes" => format!("/* -- {} -- */", cw),
         "multiline-comment" => format!("/* {}\n  more /* in\n */ end */", cw),
+        // directly attached to the preceding item; the next item starts in column 1 of the next line
+        "line-comment-attached" => format!("-- {}\n", cw),
+        "block-comment-stars" => match rng.below(4) {
+            0 => "/***/".to_string(),
+            1 => format!("/** {} **/", cw),
+            2 => format!("/* {} **/", cw),
+            _ => format!("/*** {} */", cw),
+        },
+        "banner-comment" => format!("/****\n * {}\n ****/", cw),
         "empty" => String::new(),
         _ => unreachable!(),
     }
@@ -494,15 +510,19 @@ pub fn layout(items: &[Lex], style: LayoutStyle, rng: &mut Rng) -> Layout {
     let mut cur = Cursor { text: String::new(), line: 1, col: 1 };
     let mut toks = Vec::new();
     let mut kinds_used = Vec::new();
+    let mut boundary_kinds: Vec<&'static str> = vec![""];
+    let mut item_tok_start: Vec<usize> = Vec::new();
     let mut attached = false;
     // optional leading separator
     if style == LayoutStyle::Mixed && rng.chance(1, 3) {
         let k = *rng.pick(&["space", "lf", "line-comment", "block-comment-spaced", "crlf"]);
         kinds_used.push(k);
+        boundary_kinds[0] = k;
         let t = sep_text(k, rng);
         cur.push_str(&t);
     }
     for (i, it) in items.iter().enumerate() {
+        item_tok_start.push(toks.len());
         place_item(it, &mut cur, &mut toks);
         if i + 1 == items.len() {
             break;
@@ -520,7 +540,7 @@ pub fn layout(items: &[Lex], style: LayoutStyle, rng: &mut Rng) -> Layout {
             LayoutStyle::CrLf => "crlf",
             LayoutStyle::OnlyBlockComments => {
                 if need {
-                    *rng.pick(&["block-comment-attached", "nested-comment", "block-comment-with-dashes"])
+                    *rng.pick(&["block-comment-attached", "nested-comment", "block-comment-with-dashes", "block-comment-stars", "banner-comment"])
                 } else if rng.chance(1, 3) {
                     "block-comment-attached"
                 } else {
@@ -537,9 +557,9 @@ pub fn layout(items: &[Lex], style: LayoutStyle, rng: &mut Rng) -> Layout {
             }
             LayoutStyle::SpacedComments => {
                 let ks: &[&'static str] = if need {
-                    &["space", "lf", "line-comment", "block-comment-spaced", "crlf", "tab"]
+                    &["space", "lf", "line-comment", "block-comment-spaced", "crlf", "tab", "line-comment-attached"]
                 } else {
-                    &["space", "lf", "line-comment", "block-comment-spaced", "empty", "empty", "crlf"]
+                    &["space", "lf", "line-comment", "block-comment-spaced", "empty", "empty", "crlf", "line-comment-attached"]
                 };
                 *rng.pick(ks)
             }
@@ -554,12 +574,13 @@ pub fn layout(items: &[Lex], style: LayoutStyle, rng: &mut Rng) -> Layout {
         if need
             && matches!(
                 kind,
-                "block-comment-attached" | "nested-comment" | "block-comment-with-dashes" | "multiline-comment"
+                "block-comment-attached" | "nested-comment" | "block-comment-with-dashes" | "multiline-comment" | "block-comment-stars" | "banner-comment"
             )
         {
             attached = true;
         }
         kinds_used.push(kind);
+        boundary_kinds.push(kind);
         let t = sep_text(kind, rng);
         cur.push_str(&t);
     }
@@ -574,7 +595,7 @@ pub fn layout(items: &[Lex], style: LayoutStyle, rng: &mut Rng) -> Layout {
     } else {
         cur.push_str("\n");
     }
-    Layout { text: cur.text, toks, kinds_used, has_attached_comment_between_words: attached }
+    Layout { text: cur.text, toks, kinds_used, boundary_kinds, item_tok_start, has_attached_comment_between_words: attached }
 }
 
 fn place_item(it: &Lex, cur: &mut Cursor, toks: &mut Vec<PlacedTok>) {
